@@ -273,6 +273,14 @@ def check(P, rep):
                   'token it deploys, can mint for inbound transfers)', entry_id(gm))
         for e in credits:
             rep.check(core(key_variant(e.key)[1][0]) == gm.P(1), 'C11.R4', 'token-mint:credits-recipient', 'owner mint credits the `to` parameter', esite(gm, e))
+    for en, kind in (('add_minter', 'sw'), ('remove_minter', 'sr')):
+        if en in tc.entries:
+            gm = P.graph('interchain_token', en)
+            es = [e for e in state_effects(gm) if e.kind == kind and key_variant(e.key)[0] == 'Minter' and core(key_variant(e.key)[1][0]) == gm.P(1)]
+            rep.check(bool(es) and gm.success_needs([e.node for e in es]), 'C11.R4', 'token-%s:effective' % en,
+                      'token %s really %s Minter(minter) before every success exit' % (en, 'sets' if kind == 'sw' else 'removes'), entry_id(gm))
+        else:
+            rep.floor('token entry ' + en, 0, 1)
     metas = [e for e in effs if e.kind == 'meta']
     rep.check(len(metas) == 1 and core(metas[0].val) == meta and g.success_needs([metas[0].node]), 'C11.R4', 'token-constructor:metadata',
               'the requested metadata is stored', entry_id(g))
